@@ -46,6 +46,18 @@ theorem power0_shape :
 /-- σ(m) is linear in σ₈ and in the growth factor: composing `sigma`, `_sigma_0`, `_normalisation` -/
 theorem sigma_linear_in_sigma8_and_growth (s8 unn8 unnσ D : ℝ) :
     (s8 / unn8 * unnσ) * D = s8 * D * (unnσ / unn8) := by ring
+
+/-- the same statement about the regenerated bodies: `MassFunction.sigma` (of `hmf.py`) composed with `_sigma_0` and
+    `Transfer._normalisation` is σ₈ · D(z) · (un-normalised σ(m) / un-normalised σ(8)), for all masses, redshifts and σ₈ —
+    no floor, ceiling or other non-linear post-processing -/
+theorem sigma_body_linear :
+    evalR opq (Function.update ρ "_sigma_0"
+        (evalR opq (Function.update ρ "_normalisation" (evalR opq ρ Gen.Flow.Transfer__normalisation)) Gen.Flow.MassFunction__sigma_0))
+      Gen.Flow.MassFunction_sigma
+      = ρ "sigma_8" * ρ "growth_factor" * (ρ "_unn_sigma0" / ρ "_unn_sig8") := by
+  simp only [Gen.Flow.MassFunction_sigma, Gen.Flow.MassFunction__sigma_0, Gen.Flow.Transfer__normalisation]; expr_unfold
+  simp only [Function.update_apply, String.reduceEq, if_false, if_true]
+  ring
 end
 
 /-- within one normalisation branch the normalisation constant mentions neither `lnk_min` nor `lnk_max`:
